@@ -141,6 +141,17 @@ impl<K, V> BTreeMap<K, V> {
         unimplemented!()
     }
 
+    /// `.values()`: the values in key order (an eager snapshot of references)
+    #[verifier::external_body]
+    pub fn values<'a>(&'a self) -> (r: Vec<&'a V>)
+        ensures
+            r@.len() == vx_entries(self@).len(),
+            forall|i: int| 0 <= i < r@.len() ==> *(#[trigger] r@[i]) == vx_entries(self@)[i].1,
+            entries_of(vx_entries(self@), self@),
+    {
+        unimplemented!()
+    }
+
     #[verifier::external_body]
     pub fn into_iter(self) -> (r: IntoIter<K, V>)
         ensures
